@@ -30,7 +30,7 @@ RULE = ("case = list of operations (incl. deliver steps) over 3 agents, 3 comput
         "sha1(case)")
 ASSUMPTIONS = ["all Discovery objects live in one process; addresses are opaque strings"]
 BUDGET = {"quick": {"workers": 8, "examples": 1500, "seconds": 45},
-          "thorough": {"workers": 16, "examples": 4000, "seconds": 600}}
+          "thorough": {"workers": 16, "examples": 24000, "seconds": 600}}
 
 AGENTS = ["a1", "a2", "a3"]
 # agent names are part of the case: sets where one name is a prefix of another (a1 / a10), as in any deployment with
